@@ -169,6 +169,10 @@ func (p *redisProc) Stop() error {
 	// a session whose reader is blocked handing a request to its writer does not
 	// notice that the listener closed its connection: tell the sessions first.
 	p.quitOnce.Do(func() { close(p.quit) })
+	// the backends are told to quit before the listener waits for the sessions: a
+	// session whose reader is blocked in the Send of a backend with full queues
+	// only gets away when that backend quits.
+	p.u.signalQuit()
 	p.l.Stop()
 	p.u.Stop()
 	p.wg.Wait()
